@@ -79,6 +79,16 @@ CHECKS = {
         note="log capture on logger 'sqlglot' and counting wrappers on Parser.check_errors/_try_parse/raise_error are attached at run "
              "time (exit 2 if missing); inputs with internal exceptions are C05's. " + TRUST,
         design="2/C14"),
+    "C16": dict(
+        category="exploration", engine="E1",
+        technique="complete operator/function x operand-type tables and depth-2 compositions; engine typeof() as oracle",
+        text="For 12 binary operators x all ordered pairs of 17 atoms (10 typed columns BOOLEAN..TIMESTAMP and 7 literals), unary "
+             "operators, CAST/TRY_CAST to 9 types, CASE/IF/COALESCE/NULLIF/GREATEST/LEAST x all atom pairs, 65 function / aggregate / "
+             "window / predicate forms x 10 column types, and depth-2 compositions over 5 representative types (8.8k expressions, 4.8k "
+             "accepted by DuckDB): the type class annotate_types infers under the DuckDB dialect (after qualify) must equal the class "
+             "DuckDB's typeof() reports on a one-row table; annotation must not change the generated SQL.",
+        note="class-level comparison; inferred UNKNOWN and engine \"NULL\" are compatible with anything; DuckDB 1.5.5. " + TRUST,
+        design="2/C16"),
     "C18": dict(
         category="model_checking", engine="E2",
         technique="explicit-state BFS over operation histories on the real MappingSchema, reference-model agreement on every transition",
